@@ -329,7 +329,8 @@ func (s *server) publishDirectToTopic(ctx context.Context, topic string, data []
 	}
 	err = psTopic.Publish(ctx, data)
 	if err != nil {
-		return NewErrPushLog(err, errors.NewKV("Topic", topic))
+		// the topic was joined for this message only: it must not stay behind, or a later subscription to it fails
+		return errors.Join(NewErrPushLog(err, errors.NewKV("Topic", topic)), psTopic.Close())
 	}
 	return psTopic.Close()
 }
